@@ -148,12 +148,22 @@ def realise(cin, variant):
             fam = {"legacy": "daily", "billing": "billing", "hourly": "hourly"}[cin["tree"]]
             if fam == "hourly":
                 kw["seed"] = 1
+            supp = f["path"] == "supplemental_time_series_columns"
+            if supp:            # columns that exist in the baseline frame, so that the fit really uses them
+                kw["supplemental_time_series_columns"] = ["sup_c", "sup_a"]
+                kw["train_features"] = ["temperature"]
             m = build(cin["tree"], kw)
-            frame, dkw = lifecat.build(fam, "baseline", "good")
+            # the settings the model was BUILT with: taken before the fit (a fit must not edit them)
+            built = json.loads(json.dumps(m.settings.model_dump(), default=lambda o: o.value if isinstance(o, enum.Enum) else str(o)))
+            frame, dkw = lifecat.build(fam, "baseline", "good", supp=supp) if fam == "hourly" else lifecat.build(fam, "baseline", "good")
             cls = {"daily": em.DailyBaselineData, "billing": em.BillingBaselineData, "hourly": em.HourlyBaselineData}[fam]
             m.fit(cls(frame, **dkw), ignore_disqualification=True)
             stored = json.loads(m.to_json())["settings"]
-            built = json.loads(json.dumps(m.settings.model_dump(), default=lambda o: o.value if isinstance(o, enum.Enum) else str(o)))
+            if built.get("train_features", 0) is None:
+                # train_features left unset: the hourly fit resolves it from the columns of the baseline (documented: ghi present -> solar);
+                # an explicitly given list must come back unchanged
+                stored.pop("train_features", None)
+                built.pop("train_features", None)
             if cin["tree"] == "billing":          # BillingModel.to_dict forces the flag so that the document reloads (named in C01's anchors)
                 stored.pop("developer_mode", None)
                 built.pop("developer_mode", None)
